@@ -214,7 +214,7 @@ Proof.
       cbn [arg_bytes r_int r_err r_wrongtype] in Hn; fin.
   - (* STRLEN *) unfold h_strlen in H1. repeat st_step; reflexivity.
   - (* GETRANGE *) unfold h_getrange in H1. repeat st_step; reflexivity.
-  - (* SETRANGE *) unfold h_setrange, nth_arg in *. repeat st_step;
+  - (* SETRANGE *) unfold h_setrange, eng_setrange, nth_arg in *. repeat st_step;
       cbn [arg_bytes r_int r_err r_wrongtype] in Hn; fin.
   - (* TYPE *) unfold h_type in H1. repeat st_step; reflexivity.
   - (* RENAME *) unfold h_rename, eng_rename, nth_arg in *. repeat st_step;
